@@ -4,7 +4,7 @@ from __future__ import annotations
 import itertools
 
 from ..core import Prop, Violation
-from ._coord import CoordMixin, gen_cfg, gen_exec, CP_SCRIPTS
+from ._coord import CoordMixin, gen_cfg, gen_exec, gen_multi_kill, CP_SCRIPTS
 
 
 class C14(CoordMixin, Prop):
@@ -15,7 +15,7 @@ class C14(CoordMixin, Prop):
     thorough_budget = 40000
     all_branches = ["cell:ok", "cell:blocked", "cell:post-raise", "x:blocked", "x:unknown", "x:reentrant", "x:preempted", "x:cp0-fail", "x:cp1-fail", "x:cp2-fail",
                     "x:cp3-fail", "x:work-raise", "x:val-fail", "x:commit", "acq:acquired", "acq:blocked",
-                    "acq:reentrant", "acq:preempted", "rel:0", "rel:1", "wd:timeout", "x:killed-in-work"]
+                    "acq:reentrant", "acq:preempted", "rel:0", "rel:1", "wd:timeout", "wd:deadlock", "wd:starvation", "x:killed-in-work"]
     assumptions = [
         "an operation id is not started again while an operation with that id is still active (id reuse replaces "
         "the context object and is outside the property's quantifier; the oracle stops judging a history there)",
@@ -62,6 +62,8 @@ class C14(CoordMixin, Prop):
         return gen_exec(rng, rng.choice([1, 1, 1, 5]), nres, [x for x in ops if x != 1])
 
     def generate(self, rng, tier, n):
+        for i in range(max(20, n // 40)):
+            yield gen_multi_kill(rng)
         # timeout boundaries: below / at / above each limit
         for i in range(max(6, n // 100)):
             L = rng.choice([1, 5, 10])
@@ -106,7 +108,9 @@ class C14(CoordMixin, Prop):
                   ("bbbb", "n:raise.V0", "yes"), ("bbbb", "n:raise.K0", "yes"), ("bbbb", "n:ok", "raise.V0"),
                   ("bbbb", "n:ok", "raise.A0"), ("bbbb", "n:ok", "raise.R0"), ("bbbb", "n:ok", "raise.K0"),
                   ("bbbb", "n:ok", "raise.C0"), ("bbbb", "n:ok", "raise.Cm"), ("bybb", "n:ok", "yes"), ("bbzb", "n:ok", "yes"),
-                  ("bbbb", "k1:raise.A0", "raise.V0")]
+                  ("bbbb", "k1:raise.A0", "raise.V0"), ("bbbb", "n:ok.N", "no"), ("bbbb", "n:ok.N", "raise.V0"),
+                  ("bbbb", "n:ok.N", "yes"), ("bbbb", "n:ok.Z", "no"), ("bbbb", "n:ok.F", "raise"), ("bbbb", "n:ok.L", "absent"),
+                  ("bbnb", "n:ok.N", "no")]
         posts = [None, "ok", "raise.V0"] if tier == "quick" else [None, "ok", "notag", "raise", "raise.V0"]
         holders = ["free", "held-low", "held-high", "held-twice"]
         reqs = [r for k in range(0, L + 1) for r in itertools.product([1, 2], repeat=k)]
@@ -115,7 +119,8 @@ class C14(CoordMixin, Prop):
             for h1, h2 in itertools.product(holders, repeat=2):
                 for pre in pres:
                     for (cps, work, val), post in itertools.product(faults, posts):
-                        if post is not None and (h1, h2) not in (("free", "free"), ("held-low", "free"), ("free", "held-high")):
+                        if post is not None and (h1, h2) not in ((("free", "free"),) if tier == "quick" else
+                                                                 (("free", "free"), ("held-low", "free"), ("free", "held-high"))):
                             continue          # the cell wrapper adds nothing lock-specific: fewer holder patterns
                         lines = ["cfg none none 3 priority", f"res 1 {pre[0]}", f"res 2 {pre[1]}"]
                         for o, r, h in ((2, 1, h1), (3, 2, h2)):
@@ -206,11 +211,15 @@ class C14(CoordMixin, Prop):
                     if e.startswith("val:") and "work:1" not in log[:j]:
                         out.append(Violation("validate_only_after_work", "work completed before validate_fn", f"{log}", idx))
                 # 5. success only if both succeeded — at every layer that reports a success flag
-                wok = t[5].split(":")[1] == "ok"
+                wok = t[5].split(":")[1].startswith("ok")
                 vok = t[6] in ("absent", "yes")
+                if t[6] != "absent" and "work:1" in log and "cp2:1" in log and not any(e.startswith("val:") for e in log):
+                    out.append(Violation("validation_runs_after_completed_work",
+                                         "validate_fn is called once work completed and the S checkpoint passed, whatever work returned",
+                                         f"work={t[5]} log={log}", idx))
                 for layer, flag in (("CoordinationResult", info.get("coord_success")),
                                     ("CellExecutionResult" if k == "cell" else "result", info.get("success"))):
-                    if flag and not (wok and vok and "work:1" in log):
+                    if flag and not (wok and vok and "work:1" in log and (t[6] == "absent" or "val:1" in log)):
                         out.append(Violation("success_iff_both", "success=False",
                                              f"{layer}.success=True with work={t[5]} validate={t[6]} log={log}", idx))
                 if k == "cell" and info.get("cell_success") and info.get("coord_success") is False:
@@ -218,6 +227,14 @@ class C14(CoordMixin, Prop):
                                          "CellExecutionResult.success=True, CoordinationResult.success=False", idx))
                 if k == "cell" and info.get("has_output") and not info.get("cell_success"):
                     out.append(Violation("no_output_unless_success", "output None on failure", "output released", idx))
+            # every operation named in a returned termination event is terminated
+            for a, why in list(info.get("events", [])) + list(info.get("work_events", [])):
+                if a in st["active"]:
+                    out.append(Violation("terminated_operation_not_active", f"op{a} ({why}) no longer active", "still listed", idx))
+                if any(l["owner"] == a for l in st["locks"].values()):
+                    out.append(Violation("terminated_operation_owns_nothing", f"op{a} ({why}) owns nothing", "still owns a resource", idx))
+                if any(x == a for l in st["locks"].values() for x, _ in l["waiting"]):
+                    out.append(Violation("terminated_operation_not_waiting", f"op{a} ({why}) in no waiting list", "still queued", idx))
             # every exit path (complete / abort / kill / shutdown / watchdog): whoever is no longer active owns nothing
             if k != "cfg":
                 for r, l in st["locks"].items():
